@@ -14,7 +14,7 @@ EXTENDS Speaker, SpeakerDom
 CONSTANTS MaxEvents, Codes, LocalCodes
 
 VARIABLES outq, sending, wire, stalled, nev
-mvars == <<up, inr, loc, outq, sending, wire, stalled, nev>>
+mvars == <<up, inr, loc, impPol, expPol, inrPol, expEff, outq, sending, wire, stalled, nev>>
 
 EmptyView == [x \in Prefixes |-> NoRoute]
 
@@ -47,7 +47,7 @@ FanOut(oldRib, newRib, ups) ==
                   IN IF b = <<>> THEN outq[q] ELSE Append(outq[q], b)]
 
 RibNow == [x \in Prefixes |-> LocRibExpected(x)]
-RibAfter(inr2, loc2) ==
+RibAfter(inr2, loc2) ==      \* the mechanism model runs with the "acc" policies only
   [x \in Prefixes |-> {inr2[p][x] : p \in {q \in Peers : Usable(inr2[q][x])}}
                       \cup (IF loc2[x] # NoRoute THEN {loc2[x]} ELSE {})]
 Ups == {p \in Peers : up[p]}
@@ -112,17 +112,17 @@ LastWins(ops) == LET idx(x) == {i \in 1..Len(ops) : ops[i].x = x}
 MTake(p) == /\ up[p] /\ sending[p] = <<>> /\ outq[p] # <<>>
             /\ sending' = [sending EXCEPT ![p] = LastWins(Flatten(outq[p]))]
             /\ outq' = [outq EXCEPT ![p] = <<>>]
-            /\ UNCHANGED <<up, inr, loc, wire, stalled, nev>>
+            /\ UNCHANGED <<up, inr, loc, polvars, wire, stalled, nev>>
 
 MDeliver(p) == /\ up[p] /\ p \notin stalled /\ sending[p] # <<>>
                /\ wire' = [wire EXCEPT ![p][Head(sending[p]).x] = Head(sending[p]).r]
                /\ sending' = [sending EXCEPT ![p] = Tail(sending[p])]
-               /\ UNCHANGED <<up, inr, loc, outq, stalled, nev>>
+               /\ UNCHANGED <<up, inr, loc, polvars, outq, stalled, nev>>
 
 MStall(p)  == /\ Event /\ up[p] /\ stalled = {} /\ stalled' = {p}
-              /\ UNCHANGED <<up, inr, loc, outq, sending, wire>>
+              /\ UNCHANGED <<up, inr, loc, polvars, outq, sending, wire>>
 MResume(p) == /\ p \in stalled /\ stalled' = stalled \ {p}
-              /\ UNCHANGED <<up, inr, loc, outq, sending, wire, nev>>
+              /\ UNCHANGED <<up, inr, loc, polvars, outq, sending, wire, nev>>
 
 MNext == \/ \E p \in Peers : \/ MUp(p) \/ MDown(p) \/ MTake(p) \/ MDeliver(p) \/ MStall(p) \/ MResume(p)
                              \/ \E x \in Prefixes : MWd(p, x)
